@@ -44,7 +44,7 @@ func init() {
 		tc := p.tc
 		p.assume(tc.Ult(n, tc.Const(64, 1<<24)))
 		o := p.newByteStore(types.Typ[types.Uint8], 8, n, true, "in")
-		p.inputs = append(p.inputs, &InputRec{Kind: "bytes", obj: o, lenT: n, Name: o.Base.Name})
+		p.inputs = append(p.inputs, &InputRec{Kind: "bytes", obj: o, lenT: n, Name: o.Base.Name, Env: p.inModel()})
 		return &SliceV{Obj: o, Off: tc.Const(64, 0), Len: n, Cap: n}
 	})
 	reg(vfPkg+".Assume", func(p *Path, fn *ssa.Function, args []Value) Value {
@@ -78,7 +78,7 @@ func init() {
 			p.unsupported("vf.Choose with symbolic n")
 		}
 		k := p.choose(int(n.Val))
-		p.inputs = append(p.inputs, &InputRec{Kind: "choose", Val: uint64(k)})
+		p.inputs = append(p.inputs, &InputRec{Kind: "choose", Val: uint64(k), Env: p.inModel()})
 		return p.tc.Const(64, uint64(k))
 	})
 	reg(vfPkg+".Param", func(p *Path, fn *ssa.Function, args []Value) Value {
@@ -299,6 +299,62 @@ func init() {
 	for _, n := range []string{"fmt.Println", "fmt.Printf", "fmt.Print", "fmt.Fprintf", "fmt.Fprintln", "fmt.Fprint"} {
 		reg(n, noop)
 	}
+
+	// ----- time (summarised: no division by 10^3/10^6/10^9 reaches the solver) -----
+	reg("(time.Time).UnixMilli", func(p *Path, fn *ssa.Function, args []Value) Value {
+		t := args[0].(*StructV)
+		wall, ext := t.Fields[0].(*Term), t.Fields[1].(*Term)
+		if wall.IsConst() && ext.IsConst() && wall.Val&(1<<63) == 0 {
+			sec := int64(ext.Val) - 62135596800
+			return p.tc.Const(64, uint64(sec*1000+int64(wall.Val&(1<<30-1))/1000000))
+		}
+		p.note("time.Time.UnixMilli summarised as an uninterpreted function of the instant (inverse of time.UnixMilli)")
+		return p.tc.UF("time_unixmilli", BV(64), wall, ext)
+	})
+	reg("time.UnixMilli", func(p *Path, fn *ssa.Function, args []Value) Value {
+		ms := args[0].(*Term)
+		tc := p.tc
+		tt := fn.Signature.Results().At(0).Type()
+		if ms.IsConst() {
+			v := ms.SignedVal()
+			sec, rem := v/1000, v%1000
+			if rem < 0 {
+				rem += 1000
+				sec--
+			}
+			return &StructV{Typ: tt, Fields: []Value{tc.Const(64, uint64(rem*1000000)), tc.Const(64, uint64(sec+62135596800)), &PtrV{}}}
+		}
+		p.note("time.UnixMilli summarised: result fields are uninterpreted functions of the argument, with UnixMilli(UnixMilli(ms)) == ms")
+		wall := tc.BvAnd(tc.UF("ms_wall", BV(64), ms), tc.Const(64, 1<<30-1))
+		ext := tc.UF("ms_ext", BV(64), ms)
+		if p.guard == nil {
+			p.assertPC(tc.Eq(tc.UF("time_unixmilli", BV(64), wall, ext), ms))
+			// injectivity on the instant: different ms give different instants
+		}
+		return &StructV{Typ: tt, Fields: []Value{wall, ext, &PtrV{}}}
+	})
+	reg("time.Now", func(p *Path, fn *ssa.Function, args []Value) Value {
+		tc := p.tc
+		sec := p.fresh("now_sec", BV(64))
+		nsec := p.fresh("now_nsec", BV(64))
+		p.inputs = append(p.inputs, &InputRec{Kind: "int", term: sec, Name: sec.Name, Env: true}, &InputRec{Kind: "int", term: nsec, Name: nsec.Name, Env: true})
+		if p.guard != nil {
+			panic(mergeAbort{"time.Now in merge region"})
+		}
+		p.assertPC(tc.And(tc.Slt(tc.Const(64, 0), sec), tc.Slt(sec, tc.Const(64, 1<<40))))
+		p.assertPC(tc.Ult(nsec, tc.Const(64, 1000000000)))
+		if last, ok := p.ghost["now"]; ok {
+			l := last.([2]*Term)
+			// non-decreasing clock
+			p.assertPC(tc.Or(tc.Slt(l[0], sec), tc.And(tc.Eq(l[0], sec), tc.Ule(l[1], nsec))))
+		}
+		if p.ghost == nil {
+			p.ghost = map[string]Value{}
+		}
+		p.ghost["now"] = [2]*Term{sec, nsec}
+		tt := fn.Signature.Results().At(0).Type()
+		return &StructV{Typ: tt, Fields: []Value{nsec, tc.BvAdd(sec, tc.Const(64, 62135596800)), &PtrV{}}}
+	})
 
 	// ----- crypto/rand -----
 	randRead := func(p *Path, fn *ssa.Function, args []Value) Value {
